@@ -1,7 +1,192 @@
+(* C14 - Velocity-profile trajectories respect kinematic limits and reach their end state.
+   Models: C14/TrapDefs.v (src/trajtrap.c), C14/BellDefs.v (src/trajbell.c), one Gallina term each, polymorphic over the
+   number type; the theorems below are about the instance R_ops (Coq's reals: exact arithmetic; sqrt of a negative number
+   and division by zero are 0 there, so every theorem about a generator also states/uses that the radicands are >= 0 and
+   the denominators non-zero on the executed path).  The binary64 instance of the SAME terms is compared bit for bit with
+   the C by checks/C14.py.  Floating-point rounding is not proved.
+   Two layers.  Evaluation layer: from a well-formedness predicate on the context alone (WFtrap / WFbell: phase durations
+   non-negative and summing to t, the hand-over equations; WFlim: the reached peak values are within the limits).
+   Planning layer: a generator result t > 0 implies well-formedness - all four branches of the trapezoid generator (on a
+   request whose acceleration signs match the direction of travel), and for the double-S generator all four cruise
+   variants and the three exits of the bisection loop, for ANY number of loop passes (induction on the model's fuel);
+   the acceleration limit of the two single-phase exits needs the standard double-S feasibility condition.
+   Definitions used in the statements: WFtrap, trap_feasible, clampR, trap_gen_post, trap_motion (C14/TrapProofs.v,
+   TrapGenProofs.v, MotionProofs.v); WFbell, WFlim, mirror, bnorm, bnd (BellProofs.v); bell_feasible, feasible_std,
+   bell_gen_post, inv, exit_post, shape (BellGenProofs.v); bell_motion (MotionProofs.v).
+   Non-vacuity: Examples trap_gen_ex, bell_gen_ex (MotionProofs.v: concrete feasible requests with t = 3 resp. t = 5),
+   bell_ex_wf, bell_ex_rev_wf (BellProofs.v: concrete well-formed contexts in both directions). *)
 From Coq Require Import Reals List.
-From LibaV Require Import Common.NumOps Common.ROps C14.TrapDefs C14.TrapProofs.
+From Coquelicot Require Import Coquelicot.
+From LibaV Require Import Common.NumOps Common.ROps C14.TrapDefs C14.BellDefs C14.TrapProofs C14.TrapGenProofs
+  C14.BellProofs C14.BellGenProofs C14.MotionProofs.
 Local Open Scope R_scope.
 
-Theorem C14_sat_range : forall x lo hi, lo <= hi -> lo <= sat R_ops x lo hi <= hi.
-Proof. exact sat_range. Qed.
-Print Assumptions C14_sat_range.
+(* ================================================================================================ trapezoid *)
+(* --- planning layer: every branch of a_trajtrap_gen (cruise / acceleration only / deceleration only / acceleration +
+   deceleration), either direction of travel: a positive result on a feasible request gives a well-formed context that
+   records the request, with every divisor non-zero and every sqrt argument non-negative on the executed path *)
+Theorem C14_trap_gen_wellformed : forall c0 vm ac de p0 p1 v0 v1,
+  vm <> 0 -> trap_feasible ac de p0 p1 ->
+  trap_gen_post vm ac de p0 p1 v0 v1 (trap_gen_b R_ops c0 vm ac de p0 p1 v0 v1).
+Proof. exact trap_gen_wf. Qed.
+Print Assumptions C14_trap_gen_wellformed.
+
+(* --- evaluation layer, from WFtrap alone *)
+Theorem C14_trap_start_end : forall vm c, WFtrap vm c ->
+  trap_pos R_ops c 0 = t_p0 c /\ trap_vel R_ops c 0 = t_v0 c /\
+  trap_pos R_ops c (t_t c) = t_p1 c /\ trap_vel R_ops c (t_t c) = t_v1 c.
+Proof. exact trap_start_end. Qed.
+Print Assumptions C14_trap_start_end.
+
+Theorem C14_trap_hold_before : forall vm c x, WFtrap vm c -> x <= 0 ->
+  trap_pos R_ops c x = t_p0 c /\ trap_vel R_ops c x = t_v0 c.
+Proof. exact trap_hold_before. Qed.
+Print Assumptions C14_trap_hold_before.
+
+Theorem C14_trap_hold_after : forall vm c x, WFtrap vm c -> t_t c <= x ->
+  trap_pos R_ops c x = t_p1 c /\ trap_vel R_ops c x = t_v1 c.
+Proof. exact trap_hold_after. Qed.
+Print Assumptions C14_trap_hold_after.
+
+Theorem C14_trap_speed_limit : forall vm c x, WFtrap vm c -> Rabs (trap_vel R_ops c x) <= vm.
+Proof. exact trap_vel_bound. Qed.
+Print Assumptions C14_trap_speed_limit.
+
+(* continuity at every query time, in particular across the phase boundaries ta, td, t and at 0 *)
+Theorem C14_trap_continuous : forall vm c x, WFtrap vm c ->
+  continuous (trap_pos R_ops c) x /\ continuous (trap_vel R_ops c) x.
+Proof. exact trap_continuous. Qed.
+Print Assumptions C14_trap_continuous.
+
+Theorem C14_trap_vel_is_derivative : forall vm c x, WFtrap vm c -> 0 < x < t_t c ->
+  is_derive (trap_pos R_ops c) x (trap_vel R_ops c x).
+Proof. exact trap_vel_is_derivative. Qed.
+Print Assumptions C14_trap_vel_is_derivative.
+
+(* the acceleration output is the slope of the velocity piece of the phase *)
+Theorem C14_trap_acc_phases : forall vm c x, WFtrap vm c ->
+  (0 <= x < t_ta c -> trap_acc R_ops c x = t_ac c) /\
+  (t_ta c <= x < t_td c -> trap_acc R_ops c x = 0) /\
+  (t_td c <= x <= t_t c -> t_ta c <= x -> trap_acc R_ops c x = t_de c) /\
+  (x < 0 \/ t_t c < x -> trap_acc R_ops c x = 0).
+Proof. exact trap_acc_phases. Qed.
+Print Assumptions C14_trap_acc_phases.
+
+Theorem C14_trap_durations : forall vm c, WFtrap vm c ->
+  0 <= t_ta c /\ 0 <= t_td c - t_ta c /\ 0 <= t_t c - t_td c /\ t_t c = t_ta c + (t_td c - t_ta c) + (t_t c - t_td c).
+Proof. exact trap_durations. Qed.
+Print Assumptions C14_trap_durations.
+
+(* --- both layers together: the property for the trapezoid, stated on the generator's output *)
+Theorem C14_trap_property : forall c0 vm ac de p0 p1 v0 v1,
+  vm <> 0 -> trap_feasible ac de p0 p1 ->
+  let '(c, t, b) := trap_gen_b R_ops c0 vm ac de p0 p1 v0 v1 in
+  0 < t -> trap_motion vm p0 p1 v0 c t /\ (b = TB_cruise \/ b = TB_accdec -> t_v1 c = clampR v1 vm).
+Proof. exact trap_gen_motion. Qed.
+Print Assumptions C14_trap_property.
+
+(* ================================================================================================ double-S *)
+(* --- planning layer.  The whole generator: whatever way it leaves through `exit` (t > 0), the context records the clamped
+   request, is well-formed, its peak velocity is within the limit, and its peak accelerations are within the limit -
+   unconditionally for the four cruise variants and the loop's two-phase exit, and under the standard feasibility
+   condition for the two single-phase exits (BX_noacc, BX_nodec) *)
+Theorem C14_bell_gen_wellformed : forall fuel c0 jm am vm p0 p1 v0 v1,
+  jm <> 0 -> am <> 0 -> vm <> 0 ->
+  bell_gen_post jm am vm p0 p1 v0 v1 (bell_gen_b R_ops fuel c0 jm am vm p0 p1 v0 v1).
+Proof. exact bell_gen_wf. Qed.
+Print Assumptions C14_bell_gen_wellformed.
+
+(* one pass of the bisection loop, for ANY loop state satisfying the invariant: an accepted pass gives the hand-over
+   equations and limits, a continuing pass re-establishes the invariant *)
+Theorem C14_bell_step_invariant : forall JM AM VM p w0 w1,
+  0 < JM -> 0 < AM -> 0 <= p -> - VM <= w0 <= VM -> - VM <= w1 <= VM ->
+  (forall a, 0 < a <= AM ->
+     p <= (VM + w0) / 2 * ((VM - w0) / a + a / JM) + (VM + w1) / 2 * ((VM - w1) / a + a / JM)) ->
+  forall c am ac, inv AM c am ac ->
+  match bell_step R_ops JM p w0 w1 c am ac with
+  | SExit c' k => exit_post JM AM VM p w0 w1 c c' k
+  | SFail _ _ => True
+  | SCont c' am' ac' => same_req c c' /\ inv AM c' am' ac'
+  end.
+Proof. exact bell_step_inv. Qed.
+Print Assumptions C14_bell_step_invariant.
+
+(* the loop, by induction on the fuel (no bound on the number of passes enters the statement) *)
+Theorem C14_bell_loop_exit : forall JM AM VM p w0 w1,
+  0 < JM -> 0 < AM -> 0 <= p -> - VM <= w0 <= VM -> - VM <= w1 <= VM ->
+  (forall a, 0 < a <= AM ->
+     p <= (VM + w0) / 2 * ((VM - w0) / a + a / JM) + (VM + w1) / 2 * ((VM - w1) / a + a / JM)) ->
+  forall fuel n c am ac, inv AM c am ac ->
+  match bell_loop R_ops fuel n JM p w0 w1 c am ac with
+  | LExit c' k _ => exit_post JM AM VM p w0 w1 c c' k
+  | LFail _ _ _ => True
+  end.
+Proof. exact bell_loop_inv. Qed.
+Print Assumptions C14_bell_loop_exit.
+
+(* definedness on every loop pass: the divisors jm and 2*am are non-zero and the radicand is non-negative *)
+Theorem C14_bell_step_defined : forall JM AM p w0 w1, 0 < JM -> 0 < AM -> 0 <= p ->
+  forall c am ac, inv AM c am ac -> JM <> 0 /\ 2 * am <> 0 /\ 0 <= Delta JM am p w0 w1.
+Proof. exact bell_step_defined. Qed.
+Print Assumptions C14_bell_step_defined.
+
+(* --- evaluation layer, from WFbell (and WFlim for the limits) alone; either direction of travel *)
+Theorem C14_bell_start_end : forall c, WFbell c ->
+  bell_pos R_ops c 0 = b_p0 c /\ bell_vel R_ops c 0 = b_v0 c /\ bell_acc R_ops c 0 = 0 /\
+  bell_pos R_ops c (b_t c) = b_p1 c /\ bell_vel R_ops c (b_t c) = b_v1 c /\ bell_acc R_ops c (b_t c) = 0.
+Proof. exact bell_start_end. Qed.
+Print Assumptions C14_bell_start_end.
+
+Theorem C14_bell_hold : forall c x, WFbell c ->
+  (x <= 0 -> bell_pos R_ops c x = b_p0 c /\ bell_vel R_ops c x = b_v0 c /\ bell_acc R_ops c x = 0) /\
+  (b_t c <= x -> bell_pos R_ops c x = b_p1 c /\ bell_vel R_ops c x = b_v1 c /\ bell_acc R_ops c x = 0).
+Proof. exact bell_hold. Qed.
+Print Assumptions C14_bell_hold.
+
+(* continuity of position, velocity and acceleration at every query time, in particular across all phase boundaries *)
+Theorem C14_bell_continuous : forall c x, WFbell c ->
+  continuous (bell_pos R_ops c) x /\ continuous (bell_vel R_ops c) x /\ continuous (bell_acc R_ops c) x.
+Proof. exact bell_continuous. Qed.
+Print Assumptions C14_bell_continuous.
+
+Theorem C14_bell_derivatives : forall c x, WFbell c -> 0 < x < b_t c ->
+  is_derive (bell_pos R_ops c) x (bell_vel R_ops c x) /\ is_derive (bell_vel R_ops c) x (bell_acc R_ops c x).
+Proof. exact bell_derivatives. Qed.
+Print Assumptions C14_bell_derivatives.
+
+Theorem C14_bell_jerk_derivative : forall c k x, WFbell c -> (1 <= k <= 7)%nat -> bnd c (k - 1) < x < bnd c k ->
+  is_derive (bell_acc R_ops c) x (bell_jer R_ops c x).
+Proof. exact bell_jerk_derivative. Qed.
+Print Assumptions C14_bell_jerk_derivative.
+
+Theorem C14_bell_limits : forall VM AM c x, WFbell c -> WFlim VM AM c ->
+  Rabs (bell_vel R_ops c x) <= VM /\ Rabs (bell_acc R_ops c x) <= AM /\ Rabs (bell_jer R_ops c x) <= b_jm c.
+Proof. exact bell_limits. Qed.
+Print Assumptions C14_bell_limits.
+
+Theorem C14_bell_durations : forall c, WFbell c ->
+  0 <= b_taj c /\ 0 <= b_ta c - 2 * b_taj c /\ 0 <= b_tv c /\ 0 <= b_tdj c /\ 0 <= b_td c - 2 * b_tdj c /\
+  b_t c = b_taj c + (b_ta c - 2 * b_taj c) + b_taj c + b_tv c + b_tdj c + (b_td c - 2 * b_tdj c) + b_tdj c.
+Proof. exact bell_durations. Qed.
+Print Assumptions C14_bell_durations.
+
+(* the C's seven polynomial pieces agree with its decision tree on the CLOSED phase intervals (forward contexts) *)
+Theorem C14_bell_pieces : forall c k x, WFfwd c -> (k <= 8)%nat -> inreg c k x ->
+  bell_pos R_ops c x = BP c k x /\ bell_vel R_ops c x = BV c k x /\ bell_acc R_ops c x = BA c k x.
+Proof. exact bell_piece. Qed.
+Print Assumptions C14_bell_pieces.
+
+(* the mirrored direction: outputs of a context with p0 > p1 are the negated outputs of the mirrored context *)
+Theorem C14_bell_mirror : forall c x, b_p1 c < b_p0 c ->
+  bell_pos R_ops c x = - bell_pos R_ops (mirror c) x /\ bell_vel R_ops c x = - bell_vel R_ops (mirror c) x /\
+  bell_acc R_ops c x = - bell_acc R_ops (mirror c) x /\ bell_jer R_ops c x = - bell_jer R_ops (mirror c) x.
+Proof. exact bell_mirror. Qed.
+Print Assumptions C14_bell_mirror.
+
+(* --- both layers together: the property for the double-S profile, stated on the generator's output *)
+Theorem C14_bell_property : forall fuel c0 jm am vm p0 p1 v0 v1,
+  jm <> 0 -> am <> 0 -> vm <> 0 -> bell_feasible jm am vm p0 p1 v0 v1 ->
+  let '(c, t, k, n) := bell_gen_b R_ops fuel c0 jm am vm p0 p1 v0 v1 in
+  0 < t -> bell_motion jm am vm p0 p1 v0 v1 c t.
+Proof. exact bell_gen_motion. Qed.
+Print Assumptions C14_bell_property.
